@@ -1,7 +1,8 @@
 From Coq Require Extraction.
 From Coq Require Import ExtrOcamlBasic.
 From OlaBase Require Import Bytes.
-From C08 Require Import Gen Model.
+From C08 Require Import Gen Model Spec TextSpec TextCheck.
 Extraction Language OCaml.
 Extraction "model.ml" io_witness N.div_eucl handle art_handle init_ust init_aport
-  mkPkt mkCfg mkK mkAC EXPIRY_INTERVAL_US.
+  mkPkt mkCfg mkK mkAC EXPIRY_INTERVAL_US
+  text_out xstep verdict over_cap atext_step list_eqb text_out_unshadowed.
